@@ -5,6 +5,8 @@ SPEC = json.load(open('/verif/tools/seeded_spec.json'))
 for s in SPEC:
     src = f"/tmp/mut-{s['from'][0]}/" + s.get("outdir", "OUT"); k = s['from'][1]
     d = f"/verif/seeded/{s['id']}"
+    if os.path.exists(f"{d}/meta.json") or not os.path.isdir(src):
+        continue
     os.makedirs(d, exist_ok=True)
     p = f"{src}/patch{k}.rebased.diff"
     if not os.path.exists(p): p = f"{src}/patch{k}.diff"
